@@ -52,7 +52,7 @@ class LivePlotting(CallbackBase):
         total_epochs=None,
         smooth=True,
     ):
-        self.period = period
+        self.period = int(period)
         self.evaluator_callback = evaluator_callback
         self.quantity_name = quantity_name
         self.error_name = error_name
